@@ -25,7 +25,7 @@ from harness import fw
 META = {
     "id": "C09",
     "technique": "Coq proof (heap model of the emitted list helper templates; single-owner invariant by induction over statements and passes; simulation of the CPython reference semantics) + extracted-model correspondence with the real transpiler's firmware compiled with clang++ ASan/UBSan and an interposed allocation counter + CPython reference run + property oracle on the sanitizer verdict and per-pass heap usage",
-    "level_text": "Theorems C09_* (coq/Props/C09.v): every list helper is safe iff Python's index condition holds and frees exactly what it replaces (all heaps, all lists); for every single-owner list program and every number of passes the firmware is memory-safe whenever CPython raises no exception, every reachable heap holds exactly the cells of the live lists, and heap usage follows Python's live data (partial: guard single_owner). Refuted with witnesses reproduced on the real firmware under ASan: `b = a` aliasing (use after free, double free), by-value list parameter mutated by the callee, list locals of the main loop and re-assignment temporaries (one block leaked per pass).",
+    "level_text": "Theorems C09_* (coq/Props/C09.v): every list helper is safe iff Python's index condition holds and frees exactly what it replaces (all heaps, all lists); for every single-owner list program and every number of passes the firmware is memory-safe whenever CPython raises no exception, every reachable heap holds exactly the cells of the live lists, and heap usage follows Python's live data (partial: guard single_owner). Refuted with witnesses reproduced on the real firmware under ASan: `b = a` aliasing (use after free, double free), by-value list parameter mutated by the callee, list locals of the main loop and re-assignment temporaries (one block leaked per pass), `c = a` deep copy vs Python alias (heap grows while Python's live data is constant).",
     "level_note": "Trusted: Coq kernel, extraction (ExtrOcamlBasic), OCaml driver, mock Arduino core (operator new[]/delete[] interposed: live-block/byte counter), clang++ 14 AddressSanitizer/UBSan as the memory checker, CPython 3.12 as the reference. The theorems are about the Gallina heap model; the correspondence bounds its distance from emitter.py's LIST_HELPER_SNIPPET and parser.py's assignment lowering. Element values are ints; String buffers, C int overflow of range(), control flow around list statements and the heap behaviour of the real AVR allocator are outside the model.",
     "design_ref": "DESIGN.md section 4 C09",
 }
@@ -359,7 +359,7 @@ def gen_index_error_part(rng, N):
 
 def gen_outside_part(rng, N):
     """aliasing, re-assignment, loop locals, by-value mutation: outside the single-owner guard"""
-    kind = rng.choice(["alias", "alias", "reassign", "looplocal", "byvalue", "mixed"])
+    kind = rng.choice(["alias", "alias", "reassign", "looplocal", "byvalue", "mixed", "clone"])
     a = [0, 0, [rng.choice(VALS) for _ in range(rng.choice([1, 2, 3]))]]
     setup, body = [a], []
     slen = {0: len(a[2])}
@@ -369,6 +369,13 @@ def gen_outside_part(rng, N):
                [0, 1, [5] * len(a[2])], [2, 1, 1]]
         for _ in range(rng.randint(1, 4)):
             (setup if rng.random() < 0.5 else body).append(rng.choice(ops))
+    elif kind == "clone":
+        # c declared by its own literal (same static length), then `c = a`: __redu_list_assign deep copy
+        setup.append([0, 1, [rng.choice(VALS) for _ in range(slen[0])]])
+        (setup if rng.random() < 0.6 else body).append([2, 1, 0])
+        ops = [[3, 1, 5], [4, 0, 5], [3, 0, 6], [4, 1, 6], [5, 0, -1], [5, 1, 0], [3, 0, 8], [4, 0, 8], [2, 1, 0], [2, 0, 1]]
+        for _ in range(rng.randint(1, 4)):
+            body.append(rng.choice(ops))
     elif kind == "reassign":
         where = body if rng.random() < 0.7 else setup
         if rng.random() < 0.5:
@@ -833,7 +840,7 @@ def run(ctx: C.Ctx):
         "guard": "single_owner (coq/Device/DListProg.v; harness guard_py cross-checked against it on every case): lists are declared "
                  "before the main loop from a literal or a range comprehension, each under a fresh name; afterwards only append / remove / "
                  "index / by-value read-only call / `x = x`. Outside (listed findings): `b = a` (F-C09-alias-use-after-free, "
-                 "F-C09-alias-double-free), re-assignment from a literal or comprehension (F-C09-reassign-temporary-leak), list first "
+                 "F-C09-alias-double-free, F-C09-clone-divergence-heap-growth), re-assignment from a literal or comprehension (F-C09-reassign-temporary-leak), list first "
                  "assigned inside the main loop (F-C09-loop-local-leak), function mutating its list parameter "
                  "(F-C09-byvalue-param-use-after-free). Oracle also requires CPython to run the script without any exception. Programs "
                  "outside the guard still go through the correspondence (the model contains the defects).",
